@@ -53,8 +53,8 @@ def state_events(prog, f):
     return ev, vs
 
 
-def r_fsm(prog, R):
-    r = R.rule("R-C17-FSM", "transition relation of cookie->state is a subset of the RFC 7873 client machine", floor=6, analysis="A-VS on a field")
+def r_fsm(prog, R, rid="R-C17-FSM"):
+    r = R.rule(rid, "transition relation of cookie->state is a subset of the RFC 7873 client machine", floor=6, analysis="A-VS on a field")
     en = prog.enum("ares_cookie_state_t")
     r.require({it["n"] for it in en["items"]} == set(STATES), "ares_cookie_state_t enumerators changed: %s" % [it["n"] for it in en["items"]])
     # who writes the state
@@ -140,8 +140,8 @@ def r_tcp(prog, R):
                 r.viol("cookie-opt-writer=%s" % g.name, g.name, g.loc(c["ln"]), "cookie option written outside ares_cookie_apply")
 
 
-def r_accept(prog, R):
-    r = R.rule("R-C17-ACCEPT", "once SUPPORTED, a response without a valid server cookie is never accepted", floor=3, analysis="A-VS + A-DOM")
+def r_accept(prog, R, rid="R-C17-ACCEPT"):
+    r = R.rule(rid, "once SUPPORTED, a response without a valid server cookie is never accepted", floor=3, analysis="A-VS + A-DOM")
     f = prog.func("ares_cookie_validate")
     ev, vs = state_events(prog, f)
     mf = MustFacts(f)
